@@ -3,9 +3,62 @@ from . import conc
 from .concprop import *
 
 
+def queue_part(ck):
+    """Second half of the quantifier: concurrent push / pop / remove / find on the exported queue itself."""
+    import random
+    rng = random.Random(ck.seed + 8)
+    if os.path.exists(os.path.join(COQ, "Properties", "C08queue.v")):
+        pr = check_proofs("C08queue", coqchk=(ck.tier == "thorough"))
+        for t in pr["theorems"]:
+            ck.oblige("theorem " + t, pr["ok"], pr["failed"] or "")
+        if not pr["ok"]:
+            ck.violation("queue_proofs", dict(broken=pr["failed"], theorem="Properties/C08queue.v", log=pr["log"][-1500:]), note="no-failing-input-found")
+    n = 800 if ck.tier == "quick" else 20000
+    lines = []
+    for i in range(n):
+        setup, threads = conc.gen_qprog(rng)
+        lines.append("q%d|%s|%s|r%d" % (i, ";".join(setup), "#".join(";".join(t) for t in threads), rng.randint(1, 10 ** 9)))
+    recs = conc.run_qprogs(lines)
+    bad, rej = [], []
+    for rec, line in zip(recs, lines):
+        j = conc.judge_queue_run(rec)
+        if j:
+            bad.append((line, rec["K"], j))
+        v = rec["V"] or ""
+        if not v.startswith("accepted"):
+            rej.append((line, rec["K"], v[:300]))
+        else:
+            # return values of every call
+            mrets = [t.split("|") if t else [] for t in kv(v)["rets"].split("#")]
+            irets = {}
+            for tag, rest in rec["ev"]:
+                if tag == "R":
+                    tid, ci, r = rest.split(" ", 2)
+                    irets.setdefault(int(tid), []).append(r)
+            for tid, rs in irets.items():
+                for ci, r in enumerate(rs):
+                    m = mrets[tid][ci] if tid < len(mrets) and ci < len(mrets[tid]) else "<none>"
+                    if r.startswith("vec:") and m.startswith("vec:"):
+                        if canon_vec(r[4:]) != canon_vec(m[4:]):
+                            rej.append((line, rec["K"], "thread %d call %d listing differs" % (tid, ci)))
+                    elif r != m:
+                        rej.append((line, rec["K"], "thread %d call %d returns %s, model %s" % (tid, ci, r, m)))
+    ck.cov["evaluations"] += sum(len(r["ev"]) for r in recs)
+    ck.extra["queue_programs"] = len(recs)
+    ck.oblige("queue alone: every scheduled run accepted by Model/ConcQ.v, same return values", not rej, "%d runs" % len(rej))
+    ck.oblige("queue alone judge: every order handed out exactly once (event log + draining pops)", not bad, "%d runs" % len(bad))
+    if bad:
+        line, k, why = bad[0]
+        ck.violation("queue_fail", dict(kind="qconc-program", program=line, schedule=k, why=why))
+    elif rej:
+        line, k, v = rej[0]
+        ck.violation("queue_unproved", dict(kind="qconc-program", broken="correspondence OrderQueue / Model.ConcQ", program=line,
+                                            schedule=k, model_says=v), note="no-failing-input-found")
+
+
 def run(tier, seed, replay=None):
     return run_conc_property(
         "C08", tier, seed, replay,
         judges=[("handed out exactly once", conc.judge_handout),
                 ("draining match", lambda rec, prog, info: conc.judge_drain(rec))],
-        n_quick=2500, n_thorough=60000)
+        n_quick=2500, n_thorough=60000, extra_obligations=queue_part)
